@@ -1121,6 +1121,7 @@ pub fn run(t: &[&str]) -> String {
             "ok".into()
         }
         "c17.unitglue" => glue::run(t),
+        "c17.lookup" => glue::run_lookup(t),
         "c17.wiring" => wiring::run(t),
         "c17.corpus" => corpus::run(t),
         _ => format!("unknown-stream {}", t[0]),
